@@ -48,17 +48,16 @@ Example C12_pipeline_example :
   forallb (fun c => negb (c =? 0)) orig = true /\ snd (run_str orig) = PDone /\ length (fst (run_str orig)) = 13%nat.
 Proof. vm_compute. repeat split. Qed.
 
-(* The same over the BUFFERED input back-end of ANY capacity >= 8 (Parser::new_from_iter, Yaml::load_from_str), by the
-   value-level agreement of the back-ends (C10): whenever the buffered run does not exhaust its fuel — bounded work is
-   proved for the string instance only; the correspondence run monitors it — its event spans and error markers are
-   true positions as well. *)
+(* The same over the BUFFERED input back-end of ANY capacity >= 8 (Parser::new_from_iter, Yaml::load_from_str):
+   unconditionally, since the buffered pipeline returns exactly what the string pipeline returns
+   (C10_pipeline_backends_equal; bounded work is proved for the buffered instance too: C01_pipeline_terminates_linear_buffered). *)
 Theorem C12_pipeline_positions_true_buffered : forall (orig : list N) cap,
-  (8 <= cap)%nat -> Forall (fun c => c <> 0%N) orig -> snd (run_buf cap orig) <> PFuel ->
+  (8 <= cap)%nat -> Forall (fun c => c <> 0%N) orig ->
   let '(evs, r) := run_buf cap orig in
   Forall (fun es => true_span orig (snd es)) evs
   /\ (forall site m, r = PScanErr site m -> site <> 0%N -> true_mark orig m)
   /\ (forall site m, r = PParseErr site m -> true_mark orig m).
-Proof. exact pipeline_positions_true_buffered. Qed.
+Proof. exact pipeline_positions_true_buffered_total. Qed.
 Print Assumptions C12_pipeline_positions_true_buffered.
 
 Example C12_buffered_example :
